@@ -107,12 +107,46 @@ Definition rd_stream (sid : Z) : M (bool * list Z) :=
   upd_st (fun s => zact_set s sid true) ;;;
   ret (ok, data).
 
+(* Zlib and ZRLE.  A server keeps one deflate stream per encoding (streams 0 and 5 of the alphabet; [c_zlibz] / [c_zrlez]
+   remember that the server has started them: a block that claims to continue a stream that was never started is a script
+   inconsistency, Desync).  With fix 11 (notes/fix_C07_3.diff) the client has an inflate stream per encoding as well.
+   Without it BOTH encodings go through the one decompStream ([zact 0]): a block that starts its server stream while the
+   client's stream is in use carries a zlib header in mid-stream - inflate reports a data error, the connection is lost
+   (finding C07-F4); a block that continues its server stream while the client's stream has meanwhile been fed from the
+   other one cannot be predicted (Desync) *)
+Definition rd_shared (own other : cst -> bool) (mark : cst -> cst) (sid : Z) : M (bool * list Z) :=
+  z <- rd_zblock ;;
+  let '(sid', fresh, ok, data) := z in
+  s <- get_st ;;
+  if negb (sid' =? sid) then (fun _ _ => Desync) else
+  if negb fresh && negb (own s) then (fun _ _ => Desync) else
+  if fresh then
+    (if zact_get s 0 then failM else upd_st (fun s => zact_set (mark s) 0 true) ;;; ret (ok, data))
+  else
+    (if zact_get s 0 && negb (other s) then upd_st (fun s => zact_set (mark s) 0 true) ;;; ret (ok, data)
+     else (fun _ _ => Desync)).
+
+Definition rd_zlib_stream : M (bool * list Z) :=
+  s0 <- get_st ;;
+  if fixed s0 11 then (r <- rd_stream 0 ;; upd_st (fun s => set_zlibz s true) ;;; ret r)
+  else rd_shared c_zlibz c_zrlez (fun s => set_zlibz s true) 0.
+
+Definition rd_zrle_stream : M (bool * list Z) :=
+  s0 <- get_st ;;
+  if fixed s0 11 then
+    (z <- rd_zblock ;;
+     let '(sid', fresh, ok, data) := z in
+     s <- get_st ;;
+     if negb (sid' =? 5) then (fun _ _ => Desync) else
+     if Bool.eqb fresh (c_zrlez s) then (fun _ _ => Desync) else upd_st (fun s => set_zrlez s true) ;;; ret (ok, data))
+  else rd_shared c_zrlez c_zlibz (fun s => set_zrlez s true) 5.
+
 Definition dec_zlib (x y w h : Z) : M unit :=
   s <- get_st ;;
   let need := w * h * bypp_of s in
   let cap := if c_rawsz s <? need then need else c_rawsz s in
   upd_st (fun s => set_rawsz s cap) ;;;
-  r <- rd_stream 0 ;;
+  r <- rd_zlib_stream ;;
   let '(ok, data) := r in
   if negb ok then failM else
   if cap <? zlen data then failM else       (* "zlib inflate ran out of space!" *)
@@ -328,7 +362,7 @@ Definition dec_zrle (x y w h : Z) : M unit :=
   let minsz := w * h * rbytes v * 2 + slack in
   let cap := if c_rawsz s <? minsz then minsz else c_rawsz s in
   upd_st (fun s => set_rawsz s cap) ;;;
-  r <- rd_stream 0 ;;
+  r <- rd_zrle_stream ;;
   let '(ok, data) := r in
   if negb ok then failM else
   if cap - slack <? zlen data then failM else
